@@ -103,6 +103,7 @@ class Fx:
         self.cell = None             # decl id of the `const char**` in/out parameter (its cell is the state σ)
         self.buf = False             # the function has character cursors: every definition takes `buf`
         self.flow = False            # a Flow merge was emitted (join style)
+        self.lits = []               # (lean name, bytes) of static local pointers to string literals: extra parameters
         self.ostr = None             # decl id of the `std::string&` / back_insert_iterator parameter the function appends to
                                      # (an OUTPUT byte list: part of the state σ)
 
